@@ -478,6 +478,14 @@ Record addr_obj := { ao_stype : option string; ao_hash : bytes; ao_net : network
 (* Address(data=, hashed_data=hashed, prefix=, script_type=, encoding=, witness_type=, witver=, network=).
    [dh] = (hash160 (to_bytes data), sha256 (to_bytes data)): what the object hashes itself when to_bytes(hashed_data) is
    empty ("if not self.hash_bytes:").  [hash_bytes] is to_bytes(hashed_data); pubkeyhash_to_addr applies to_bytes again. *)
+(* encoding.varstr (Wire.lib_varstr), written so that only the LENGTH of a longer string is inspected: equal to
+   lib_varstr on every input (Proofs/AddrScriptTac.v: varstr_of_eq) *)
+Definition varstr_of (s : bytes) : option bytes :=
+  match s with
+  | [b] => lib_varstr [b]
+  | _ => match lib_cs_enc (Z.of_nat (List.length s)) with Some p => Some (p ++ s) | None => None end
+  end.
+
 (* the witness type and witness version the object ends up with *)
 Definition addr_wt (st : option string) (e : option enc) (wt : option string) (witver : Z) : string * Z :=
         match wt with
@@ -506,7 +514,7 @@ Definition lib_address_core (fx : fixes) (hashed1 : bytes) (dh : bytes * bytes) 
       | EB58 =>
           let st1 := match st with None => Some s_p2pkh | _ => st end in
           match (if String.eqb wt1 s_p2sh_segwit
-                 then match lib_varstr hb with Some v => Some (H160 (x00 :: v)) | None => None end
+                 then match varstr_of hb with Some v => Some (H160 (x00 :: v)) | None => None end
                  else Some hb) with
           | None => None
           | Some h1 =>
@@ -798,6 +806,10 @@ Definition cls_ascii_hex (d : dest) : bool := hexlike (d_payload d).
 Definition hex_guard (fx : fixes) (d : dest) : Prop :=
   (forall x, fx_tb fx x = x) \/ (fx_tb fx = lib_to_bytes /\ cls_ascii_hex d = false).
 
+(* the same guard for a list of byte strings (key objects: the hashes of the key, the key itself) *)
+Definition tb_leaves (fx : fixes) (l : list bytes) : Prop :=
+  (forall x, fx_tb fx x = x) \/ (fx_tb fx = lib_to_bytes /\ forallb (fun x => negb (hexlike x)) l = true).
+
 (* ---------- named creation paths (what the theorems and the driver use) ---------- *)
 Definition args0 (net : network) : oargs :=
   {| a_addr := AaNone; a_hash := []; a_pubkey := []; a_lock := []; a_stype := None; a_witver := 0;
@@ -844,6 +856,12 @@ Definition spec_hd_dest (w : wtype) (ms : bool) (h160 s256 : bytes) : dest :=
   | WP2shSegwit, false => mkdest P2sh 0 (H160 (x00 :: x14 :: h160))
   | WP2shSegwit, true => mkdest P2sh 0 (H160 (x00 :: x20 :: s256))
   end.
+
+(* the byte strings of an HD key that to_bytes meets: hash160 / sha256 of the public key, the key, and for a
+   P2SH-embedded witness program the hash of that program *)
+Definition hd_leaves (w : wtype) (h160 s256 pub : bytes) : list bytes :=
+  [h160; s256; pub] ++
+  match w with WP2shSegwit => [H160 (x00 :: x14 :: h160); H160 (x00 :: x20 :: s256)] | _ => [] end.
 
 (* the two directions of the property, as functions *)
 Definition lib_output_script fx net (a : daddr) : option bytes :=
